@@ -419,6 +419,9 @@ class EQLTranslator:
                 f"No DAO class found for {self.select_like.selected_variable._type_}"
             )
 
+        # the joins belong to the statement that is built now
+        self.join_manager = JoinManager()
+        self.or_depth = 0
         self.sql_query = select(dao_class)
         conditions = self.translate_query(self.root_condition)
 
@@ -443,7 +446,11 @@ class EQLTranslator:
 
     def __iter__(self):
         """Iterate over evaluation results."""
-        yield from self.evaluate()
+        results = self.evaluate()
+        if isinstance(self.quantifier, The):
+            yield results
+        else:
+            yield from results
 
     def translate_query(self, query: SymbolicExpression) -> Optional[Any]:
         """
